@@ -15,7 +15,12 @@ import (
 	"verifharness/internal/cases"
 	"verifharness/internal/cq"
 	"verifharness/internal/framefmt"
+	"verifharness/internal/noise"
+	"verifharness/internal/reuse"
 )
+
+// nr drives the unrelated library calls made between the compared calls
+var nr *cq.RNG
 
 func marshal(p lorawan.PHYPayload) (b []byte, s string) {
 	defer func() {
@@ -45,17 +50,22 @@ func unmarshal(b []byte) (q lorawan.PHYPayload, s string) {
 	return q, cq.Ok(framefmt.Phy(q, framefmt.DecodedFOptsLen(b)))
 }
 
+var reused reuse.Receiver
+
 func roundTrip(s *cases.Set, p lorawan.PHYPayload, kind string) { roundTripL(s, p, kind, 0) }
 
 // roundTripL: foptsLen is the value of the unexported FCtrl.fOptsLen field of p (0 for hand-built
 // frames, the decoded nibble for frames that came out of UnmarshalBinary)
 func roundTripL(s *cases.Set, p lorawan.PHYPayload, kind string, foptsLen int) {
 	t := framefmt.Phy(p, foptsLen)
+	noise.Step(nr)
 	b, oenc := marshal(p)
 	odec := cq.Err
 	if b != nil {
+		noise.Step(nr)
 		var q lorawan.PHYPayload
 		q, odec = unmarshal(b)
+		reused.Decode(s, nr, b, odec)
 		// text form: base64 of the same bytes must decode to the same frame (Go-side property; encoding/base64 is trusted)
 		txt, err := p.MarshalText()
 		var q2 lorawan.PHYPayload
@@ -72,8 +82,16 @@ func roundTripL(s *cases.Set, p lorawan.PHYPayload, kind string, foptsLen int) {
 			}
 		}
 	}
-	s.Add(cases.Case{Term: fmt.Sprintf("CRoundTrip %s %s %s", t, oenc, odec), Key: "rt:" + kind + ":" + t, Kind: kind, Nontrivial: true,
-		Replay: map[string]interface{}{"api": "PHYPayload.MarshalBinary / UnmarshalBinary", "frame": t}})
+	rp := map[string]interface{}{"api": "PHYPayload.MarshalBinary / UnmarshalBinary", "frame": t}
+	s.Add(cases.Case{Term: fmt.Sprintf("CRoundTrip %s %s %s", t, oenc, odec), Key: "rt:" + kind + ":" + t, Kind: kind, Nontrivial: true, Replay: rp})
+	s.Remember("rt:"+kind+":"+t, oenc+" "+odec, rp, func() string {
+		b, oenc := marshal(p)
+		odec := cq.Err
+		if b != nil {
+			_, odec = unmarshal(b)
+		}
+		return oenc + " " + odec
+	})
 }
 
 func joinAccept(s *cases.Set, ja *lorawan.JoinAcceptPayload, kind string) {
@@ -119,6 +137,7 @@ func main() {
 	log.SetOutput(io.Discard)
 	dir, seed, thorough := cases.Args()
 	r := cq.NewRNG(seed)
+	nr = cq.NewRNG(seed ^ 0x9e3779b97f4a7c15)
 	s := cases.New("C01", dir, "LW.Corr.C01",
 		"spec-valid frames: 4 data MTypes x 32 FCtrl flag combinations cycled x FOpts length 0..15 (MAC commands or raw) x FPort absent/0/1..255 x FRMPayload lengths {0,1,15,16,17,31,32,33,100,241,242,random}; join-request, join-accept (CFList absent / channels / masks), rejoin 0/1/2, proprietary; plus a malformed stream (payload type not matching MType, FOpts 16..300 bytes, JoinNonce >= 2^24, FPort absent with payload, MAC command on port > 0, RXDelay > 15, nil payloads). All cases distinct by construction.")
 	s.ShardSize = 250
@@ -153,7 +172,11 @@ func main() {
 			if b, err := framefmt.DataFrame(r, o).MarshalBinary(); err == nil {
 				var q lorawan.PHYPayload
 				if q.UnmarshalBinary(b) == nil {
-					m := q.MACPayload.(*lorawan.MACPayload)
+					m, isData := q.MACPayload.(*lorawan.MACPayload)
+					if !isData { // the round-trip case of this frame (below) reports it
+						roundTrip(s, framefmt.DataFrame(r, o), "data-valid")
+						continue
+					}
 					old := framefmt.DecodedFOptsLen(b)
 					switch r.Intn(3) {
 					case 0:
@@ -231,6 +254,7 @@ func main() {
 			roundTrip(s, j, "join-malformed")
 		}
 	}
+	s.ReplayRemembered(nr.Intn, 3, func() { noise.Step(nr) })
 	if err := s.Finish(); err != nil {
 		fmt.Fprintln(os.Stderr, err)
 		os.Exit(2)
